@@ -17,7 +17,16 @@ macro_rules! opaque {
         impl Clone for $n { #[verifier::external_body] fn clone(&self) -> (r: Self) ensures r == *self { unimplemented!() } }
     )* } }
 }
-opaque!(TransactionId, AmqpErrorS, DeliveryTag, RecvError, SendError, LinkStateError, DetachError, UserBody);
+opaque!(TransactionId, AmqpErrorS, DeliveryTag, RecvError, SendError, DetachError, UserBody, SessionStopReason);
+//@@ type file=fe2o3-amqp/src/link/error.rs kind=enum name=LinkStateError
+//@@ subst `definitions::Error` => `AmqpErrorS` rule=R11
+//@@ end
+/// Arc<OnceLock<SessionStopReason>>: what the session published when it stopped
+pub struct StopCell { pub v: Option<SessionStopReason> }
+impl StopCell {
+    pub fn get(&self) -> (r: Option<&SessionStopReason>) ensures (match (r, self.v) { (Some(a), Some(b)) => *a == b, (None, None) => true, _ => false }) { match &self.v { Some(x) => Some(x), None => None } }
+}
+pub struct CtlLinkS { pub session_stop_reason: StopCell }
 pub struct Rejected { pub error: Option<AmqpErrorS> }
 pub struct Accepted {}
 
@@ -45,8 +54,6 @@ impl ErrInto<ControllerSendError> for LinkStateError { open spec fn conv(self) -
 impl ErrInto<SendError> for SendError { open spec fn conv(self) -> SendError { self } fn err_into(self) -> (r: SendError) { let e = self; assert(e == <SendError as ErrInto<SendError>>::conv(self)); e } }
 #[verifier::external_body]
 pub fn illegal_delivery_state() -> (r: SendError) { unimplemented!() }
-#[verifier::external_body]
-pub fn stopped_error() -> (r: LinkStateError) { unimplemented!() }
 
 impl DeliveryState {
 //@@ fn file=fe2o3-amqp-types/src/messaging/delivery_state/mod.rs impl=`impl DeliveryState` name=accepted_or_else
@@ -108,20 +115,20 @@ impl OutcomeRx {
 //@@ end
 /// what comes back for the delivery that was sent last in `log`: None = the channel is dropped without an answer (link or session gone), Some(None) = settled without a state, Some(Some(s)) = the peer's delivery state
 pub uninterp spec fn reply_to(log: Seq<Sent>) -> Option<Option<DeliveryState>>;
-pub struct SenderInnerS { pub sent: Ghost<Seq<Sent>>, pub closes: Ghost<Seq<Option<AmqpErrorS>>> }
+pub struct SenderInnerS { pub sent: Ghost<Seq<Sent>>, pub closes: Ghost<Seq<Option<AmqpErrorS>>>, pub link: CtlLinkS }
 impl SenderInnerS {
     #[verifier::external_body]
     pub fn send_with_state(&mut self, sendable: Sendable, state: Option<DeliveryState>, batchable: bool) -> (r: Result<Settlement, SendError>)
         ensures
             r is Ok ==> final(self).sent@ == old(self).sent@.push(Sent { body: sendable.message.body, settled: sendable.settled, state, batchable }),
             r is Err ==> final(self).sent@ == old(self).sent@,
-            final(self).closes == old(self).closes,
+            final(self).closes == old(self).closes, final(self).link == old(self).link,
             r is Ok && r->Ok_0 is Unsettled ==> r->Ok_0->Unsettled_outcome.v@ == reply_to(final(self).sent@),       // (the channel handed back is the one on which the peer's outcome for THIS delivery arrives)
     { unimplemented!() }
     /// the closing handshake of the control link (unit LINKDETACH)
     #[verifier::external_body]
     pub fn close_with_error(&mut self, error: Option<AmqpErrorS>) -> (r: Result<(), DetachError>)
-        ensures final(self).sent == old(self).sent, final(self).closes@ == old(self).closes@.push(error),
+        ensures final(self).sent == old(self).sent, final(self).closes@ == old(self).closes@.push(error), final(self).link == old(self).link,
     { unimplemented!() }
 }
 impl ErrInto<ControllerSendError> for DetachError { open spec fn conv(self) -> ControllerSendError { ControllerSendError::Detached(self) } fn err_into(self) -> (r: ControllerSendError) { ControllerSendError::Detached(self) } }
@@ -137,7 +144,7 @@ impl ErrInto<ControllerSendError> for DetachError { open spec fn conv(self) -> C
 //@@ subst `SendError::IllegalDeliveryState` => `illegal_delivery_state()` rule=R11
 //@@ spec
     ensures
-        final(sender).closes == old(sender).closes,       // (the control link is not closed by an exchange on it)
+        final(sender).closes == old(sender).closes, final(sender).link == old(sender).link,       // (the control link is not closed by an exchange on it)
         r is Ok ==> final(sender).sent@ == old(sender).sent@.push(Sent { body: sendable.message.body, settled: sendable.settled, state: None, batchable: false }),   // [C18.controller.control-message] a control message goes out exactly once, with no delivery state, as given
         r is Err ==> final(sender).sent@.len() <= old(sender).sent@.len() + 1,
         r is Ok ==> r->Ok_0.v@ == reply_to(final(sender).sent@),       // [C18.controller.outcome-is-this-message's] the outcome that will be awaited is the coordinator's answer to THIS control message
@@ -150,12 +157,16 @@ impl ErrInto<ControllerSendError> for DetachError { open spec fn conv(self) -> C
 //@@ param inner : &mut SenderInnerS
 //@@ param fail : bool
 //@@ subst `fail.into()` => `Some(fail)` rule=R16 unless `fail\.into\(\)`
-//@@ subst `send_on_control_link(inner, sendable) ?` => `send_on_control_link(inner, sendable)?.recv()` rule=R3
-//@@ subst `.map_err(|_v0| match inner.link.session_stop_reason.get() { Some(reason) => LinkStateError::SessionStopped(reason.clone()), None => LinkStateError::IllegalState, })` => `.map_err(|_v0: RecvError| -> (o: LinkStateError) { stopped_error() })` rule=R17 unless `\.map_err\(`
+//@@ subst `send_on_control_link(inner, sendable) ? .map_err(|_v0| match inner.link.session_stop_reason.get() { __E1 })` => `(match send_on_control_link(inner, sendable)?.recv() { Ok(__v) => Ok(__v), Err(_v0) => Err(match inner.link.session_stop_reason.get() { __E1 }) })` rule=R3,R19
 //@@ subst `|state| { if let DeliveryState::Rejected(rejected) = state { ControllerSendError::Rejected(rejected) } else { ControllerSendError::IllegalDeliveryState } }` => `|state: DeliveryState| -> (o: ControllerSendError) ensures (match state { DeliveryState::Rejected(rj) => o == ControllerSendError::Rejected(rj), _ => o is IllegalDeliveryState }) { if let DeliveryState::Rejected(rejected) = state { ControllerSendError::Rejected(rejected) } else { ControllerSendError::IllegalDeliveryState } }` rule=R18
 //@@ spec
     ensures
         final(inner).closes == old(inner).closes,       // (the control link is not closed by an exchange on it)
+        final(inner).link == old(inner).link,
+        (r is Err && r->Err_0 is LinkStateError) ==> (match old(inner).link.session_stop_reason.v {
+            Some(reason) => r->Err_0->LinkStateError_0 == LinkStateError::SessionStopped(reason),       // [C14.controller.stop-reason-reported] when the outcome never comes because the session stopped, the declare / discharge fails with the reason the session published
+            None => r->Err_0->LinkStateError_0 is IllegalState,
+        }),
         r is Ok ==> final(inner).sent@ == old(inner).sent@.push(Sent { body: Body::Discharge(Discharge { txn_id, fail: Some(fail) }), settled: false, state: None, batchable: false }),   // [C18.controller.discharge-on-wire] commit/rollback put exactly this transaction's id and the fail flag on the control link, unsettled
         final(inner).sent@.len() <= old(inner).sent@.len() + 1,                                                                                                                          // [C18.controller.discharge-once] at most one discharge message per call
         r is Ok ==> reply_to(final(inner).sent@) == Some(Some(DeliveryState::Accepted(r->Ok_0))),       // [C18.controller.outcome-reported] a discharge reports success exactly when the coordinator ACCEPTED this discharge message ...
@@ -169,12 +180,16 @@ impl ErrInto<ControllerSendError> for DetachError { open spec fn conv(self) -> C
 //@@ generics
 //@@ nowhere
 //@@ param inner : &mut SenderInnerS
-//@@ subst `send_on_control_link(inner, sendable) ?` => `send_on_control_link(inner, sendable)?.recv()` rule=R3
-//@@ subst `.map_err(|_v0| match inner.link.session_stop_reason.get() { Some(reason) => LinkStateError::SessionStopped(reason.clone()), None => LinkStateError::IllegalState, })` => `.map_err(|_v0: RecvError| -> (o: LinkStateError) { stopped_error() })` rule=R17 unless `\.map_err\(`
+//@@ subst `send_on_control_link(inner, sendable) ? .map_err(|_v0| match inner.link.session_stop_reason.get() { __E1 })` => `(match send_on_control_link(inner, sendable)?.recv() { Ok(__v) => Ok(__v), Err(_v0) => Err(match inner.link.session_stop_reason.get() { __E1 }) })` rule=R3,R19
 //@@ subst `|state| { if let DeliveryState::Rejected(rejected) = state { ControllerSendError::Rejected(rejected) } else { ControllerSendError::IllegalDeliveryState } }` => `|state: DeliveryState| -> (o: ControllerSendError) ensures (match state { DeliveryState::Rejected(rj) => o == ControllerSendError::Rejected(rj), _ => o is IllegalDeliveryState }) { if let DeliveryState::Rejected(rejected) = state { ControllerSendError::Rejected(rejected) } else { ControllerSendError::IllegalDeliveryState } }` rule=R18
 //@@ spec
     ensures
         final(inner).closes == old(inner).closes,       // (the control link is not closed by an exchange on it)
+        final(inner).link == old(inner).link,
+        (r is Err && r->Err_0 is LinkStateError) ==> (match old(inner).link.session_stop_reason.v {
+            Some(reason) => r->Err_0->LinkStateError_0 == LinkStateError::SessionStopped(reason),       // [C14.controller.stop-reason-reported] when the outcome never comes because the session stopped, the declare / discharge fails with the reason the session published
+            None => r->Err_0->LinkStateError_0 is IllegalState,
+        }),
         r is Ok ==> final(inner).sent@ == old(inner).sent@.push(Sent { body: Body::Declare(Declare { global_id }), settled: false, state: None, batchable: false }),   // [C18.controller.declare-on-wire]
         final(inner).sent@.len() <= old(inner).sent@.len() + 1,
         r is Ok ==> reply_to(final(inner).sent@) == Some(Some(DeliveryState::Declared(r->Ok_0))),       // [C18.controller.declared-id-is-the-coordinator's] the transaction id a declare hands to the application is the one the coordinator put into its `declared` outcome for THIS declare -- every later post and the discharge name it
@@ -307,6 +322,75 @@ impl Transaction {
         r is Ok ==> r->Ok_0.controller.inner.sent@ == controller.inner.sent@.push(Sent { body: Body::Declare(Declare { global_id }), settled: false, state: None, batchable: false }) && r->Ok_0.controller.inner.closes == controller.inner.closes,       // [C18.controller.declare-on-wire] the declare goes out on the controller the transaction keeps -- the one its posts name and its discharge will use
         r is Ok ==> r->Ok_0.rollback_on_drop_trials == DEFAULT_ROLLBACK_ON_DROP_TRIALS,
         r is Ok ==> reply_to(r->Ok_0.controller.inner.sent@) == Some(Some(DeliveryState::Declared(r->Ok_0.declared))),       // [C18.controller.declared-id-is-the-coordinator's] the handle keeps the id the coordinator declared for THIS declare
+//@@ end
+}
+
+// ---------------------------------------------------------------- the controller: how its control link is attached and closed (transaction/controller.rs)
+opaque!(Coordinator, SenderAttachError, SessionHandleS);
+//@@ type file=fe2o3-amqp-types/src/definitions/snd_settle_mode.rs kind=enum name=SenderSettleMode
+//@@ end
+/// link::builder::Builder<SenderMarker, Coordinator, ..> reduced to what the controller sets (the setters and the type-state transitions are under contract in units SETTERS and LINKBUILDER:
+/// each stores its argument and keeps everything else); `Controller::builder()` = `Builder::new()` starts with the defaults: no name, no target, snd-settle-mode mixed
+pub struct CtlBuilder { pub name: Option<String>, pub target: Option<Coordinator>, pub snd_settle_mode: SenderSettleMode }
+/// the builder the control link of `c` was attached from
+pub uninterp spec fn built_from(c: ControllerS) -> CtlBuilder;
+pub uninterp spec fn default_coordinator() -> Coordinator;
+impl Coordinator { #[verifier::external_body] pub fn default() -> (r: Coordinator) ensures r == default_coordinator() { unimplemented!() } }
+impl CtlBuilder {
+    pub fn name(self, name: String) -> (r: CtlBuilder) ensures r == (CtlBuilder { name: Some(name), ..self }) { CtlBuilder { name: Some(name), ..self } }
+    pub fn coordinator(self, coordinator: Coordinator) -> (r: CtlBuilder) ensures r == (CtlBuilder { target: Some(coordinator), ..self }) { CtlBuilder { target: Some(coordinator), ..self } }
+    pub fn sender_settle_mode(self, mode: SenderSettleMode) -> (r: CtlBuilder) ensures r == (CtlBuilder { snd_settle_mode: mode, ..self }) { CtlBuilder { snd_settle_mode: mode, ..self } }
+    /// Builder::attach (unit WIRING: attach_inner): the link is created from the builder's fields
+    #[verifier::external_body]
+    pub fn attach(self, session: &mut SessionHandleS) -> (r: Result<ControllerS, SenderAttachError>)
+        ensures r is Ok ==> built_from(r->Ok_0) == self && r->Ok_0.inner.sent@.len() == 0 && r->Ok_0.inner.closes@.len() == 0,
+    { unimplemented!() }
+}
+impl ControllerS {
+    pub fn builder() -> (r: CtlBuilder) ensures r.name is None && r.target is None { CtlBuilder { name: None, target: None, snd_settle_mode: SenderSettleMode::Mixed } }
+    pub fn get_mut_inner(&mut self) -> (r: &mut SenderInnerS) ensures *r == old(self).inner, final(self).inner == *final(r) { &mut self.inner }
+
+//@@ fn file=fe2o3-amqp/src/transaction/controller.rs impl=`impl Controller` name=attach_with_coordinator
+//@@ generics
+//@@ nowhere
+//@@ param session : &mut SessionHandleS
+//@@ param name : String
+//@@ ret Result<ControllerS, SenderAttachError>
+//@@ spec
+    ensures
+        r is Ok ==> built_from(r->Ok_0).snd_settle_mode is Unsettled,       // [C18.controller.control-link-is-unsettled] the control link is attached with snd-settle-mode UNSETTLED: a declare / discharge is never sent pre-settled, so the coordinator's outcome -- the declared id, accepted, or the transaction error -- always comes back to be reported
+        r is Ok ==> built_from(r->Ok_0).target == Some(coordinator) && built_from(r->Ok_0).name == Some(name),       // [C18.controller.control-link-targets-the-coordinator] its target is the coordinator given (with the capabilities asked for), its name the one given
+        r is Ok ==> r->Ok_0.inner.sent@.len() == 0 && r->Ok_0.inner.closes@.len() == 0,
+//@@ end
+
+//@@ fn file=fe2o3-amqp/src/transaction/controller.rs impl=`impl Controller` name=attach
+//@@ generics
+//@@ nowhere
+//@@ param session : &mut SessionHandleS
+//@@ param name : String
+//@@ ret Result<ControllerS, SenderAttachError>
+//@@ spec
+    ensures
+        r is Ok ==> built_from(r->Ok_0).snd_settle_mode is Unsettled && built_from(r->Ok_0).target == Some(default_coordinator()) && built_from(r->Ok_0).name == Some(name),       // [C18.controller.control-link-is-unsettled]
+//@@ end
+
+//@@ fn file=fe2o3-amqp/src/transaction/controller.rs impl=`impl Controller` name=close_with_error
+//@@ param error : AmqpErrorS
+//@@ ret Result<(), DetachError>
+//@@ subst `(mut self,` => `(&mut self,` rule=R32
+//@@ subst `self.inner.get_mut()` => `self.get_mut_inner()` rule=R4
+//@@ spec
+    ensures
+        final(self).inner.closes@ == old(self).inner.closes@.push(Some(error)) && final(self).inner.sent == old(self).inner.sent,       // [C13.controller.close-with-error-carries-the-error] closing the control link with an error closes it once, with THAT error in the closing detach
+//@@ end
+
+//@@ fn file=fe2o3-amqp/src/transaction/controller.rs impl=`impl Controller` name=close
+//@@ ret Result<(), DetachError>
+//@@ subst `(mut self)` => `(&mut self)` rule=R32
+//@@ subst `self.inner.get_mut()` => `self.get_mut_inner()` rule=R4
+//@@ spec
+    ensures
+        final(self).inner.closes@ == old(self).inner.closes@.push(None::<AmqpErrorS>) && final(self).inner.sent == old(self).inner.sent,       // [C13.controller.close-closes-once-without-error]
 //@@ end
 }
 
